@@ -263,8 +263,8 @@ func ruleK3(rule string) RuleFn {
 			}
 			nn++
 			g := an.NewGates().AddEdges(an.EdgesWhere(pg, func(f an.Fact) bool {
-				return regexp.MustCompile(`^\((new:g\.Name|strings\.Split\(p:s, ","\)(\[:\])?\[0\]) != ""\)$`).MatchString(f.S) ||
-					regexp.MustCompile(`^\(len\((new:g\.Name|strings\.Split\(p:s, ","\)(\[:\])?\[0\])\) > 0\)$`).MatchString(f.S)
+				return regexp.MustCompile(`^\((new:[A-Za-z_]+\.Name|strings\.Split\(p:s, ","\)(\[:\])?\[0\]) != ""\)$`).MatchString(f.S) ||
+					regexp.MustCompile(`^\(len\((new:[A-Za-z_]+\.Name|strings\.Split\(p:s, ","\)(\[:\])?\[0\])\) > 0\)$`).MatchString(f.S)
 			})...)
 			if g.Len() == 0 {
 				guarantee = false
